@@ -293,3 +293,70 @@ Definition a2l_addr_info (base : Z) (nm : option (list sym)) (addr : Z) (stack :
                 | _ => a2l_apply_nm (addr_info tab (a2l_nm_query base addr)) stack
                 end
   end.
+
+(* ---- a session on ONE Binutils object (binutils.go Open / openELF, then file.ObjAddr) ----
+   Every successful Open creates an independent file object; nothing the code keeps in the Binutils
+   (binrep: tool paths, the fast flag) takes part in address translation. *)
+
+(* binutils.go:427 openELF as far as the mapping is concerned: the preliminary GetBase check with
+   the .text segment.  kernelOffset stays nil: the relocation symbol is only looked up in a symbol
+   table, [None] models a file without one. *)
+Definition open_elf (ef : elf) (start limit offset : Z) : res emap :=
+  match get_base (e_type ef) (find_text_prog_header ef) None start limit offset with
+  | Err e => Err e
+  | Ok _ => Ok {| em_start := start; em_limit := limit; em_offset := offset; em_koff := None |}
+  end.
+
+Definition elf0 : elf := {| e_type := 0; e_progs := []; e_sections := [] |}.
+
+Inductive sev :=
+| SOpen (fi : nat) (start limit offset : Z)   (* Binutils.Open(file fi, start, limit, offset, "") *)
+| SAddr (h : nat) (a : Z)                     (* ObjAddr on the object returned by the h-th Open *)
+| SNop.                                       (* SetFastSymbolization, Close *)
+
+Inductive sobs :=
+| OOpen (e : option Z)   (* None = ok *)
+| OAddr (r : res Z)
+| ONone
+| OBad.                  (* ObjAddr on a handle that does not exist / whose Open failed *)
+
+(* one entry per Open so far: the failed ones, and the live file objects with their baseOnce state
+   (None = base not computed yet) *)
+Inductive hstate :=
+| HFail
+| HOpen (fi : nat) (m : emap) (st : option (res (Z * bool))).
+
+Fixpoint set_nth {A : Type} (l : list A) (n : nat) (x : A) : list A :=
+  match l, n with
+  | [], _ => []
+  | _ :: r, O => x :: r
+  | y :: r, S n' => y :: set_nth r n' x
+  end.
+
+Definition session_step (files : list elf) (hs : list hstate) (e : sev) : list hstate * sobs :=
+  match e with
+  | SOpen fi start limit offset =>
+      match open_elf (nth fi files elf0) start limit offset with
+      | Ok m => ((hs ++ [HOpen fi m None])%list, OOpen None)
+      | Err c => ((hs ++ [HFail])%list, OOpen (Some c))
+      end
+  | SAddr h a =>
+      match nth_error hs h with
+      | Some (HOpen fi m st) =>
+          let st' := match st with
+                     | Some s => s
+                     | None => compute_base (Some m) true (nth fi files elf0) a
+                     end in
+          (set_nth hs h (HOpen fi m (Some st')), OAddr (obj_addr_with st' a))
+      | _ => (hs, OBad)
+      end
+  | SNop => (hs, ONone)
+  end.
+
+Fixpoint session_from (files : list elf) (hs : list hstate) (evs : list sev) : list sobs :=
+  match evs with
+  | [] => []
+  | e :: r => let '(hs', o) := session_step files hs e in o :: session_from files hs' r
+  end.
+
+Definition session_run (files : list elf) (evs : list sev) : list sobs := session_from files [] evs.
